@@ -1,6 +1,6 @@
 (* C07 - Clones are faithful, self-contained and independent of the original. Property theorems only. *)
 From Coq Require Import List.
-From SV Require Import Base.Base IR.State IR.NS IR.Ops Xform.Clone Proofs.CloneSmall Proofs.C01_full Proofs.Inv1a Proofs.Inv2a Proofs.CloneFrame Proofs.CloneStart Proofs.NsInv Proofs.InvW Proofs.UniqInv Proofs.CloneFaith Proofs.CloneFull Proofs.CloneNetInv.
+From SV Require Import Base.Base IR.State IR.NS IR.Ops Xform.Clone Proofs.CloneSmall Proofs.C01_full Proofs.Inv1a Proofs.Inv2a Proofs.CloneFrame Proofs.CloneStart Proofs.NsInv Proofs.InvW Proofs.UniqInv Proofs.CloneFaith Proofs.CloneFull Proofs.CloneNetInv Proofs.CloneDefStruct.
 Import ListNotations.
 
 (* cloning a wire: one fresh element, no pins listed, nothing else changes *)
@@ -125,6 +125,20 @@ Theorem C07_netlist_clone_keeps_invariant_from : forall s0 n,
   snd (fst (clone_netlist s0 n)) = None -> Inv (fst (fst (clone_netlist s0 n))).
 Proof. exact clone_netlist_inv. Qed.
 Print Assumptions C07_netlist_clone_keeps_invariant_from.
+
+(* the copy made by Definition.clone has the structure and the connections of the original: a
+   one-to-one map M from the definition, its ports, pins, cables, wires and child instances onto
+   fresh objects of the same kinds; the copy is detached (no parent); its port / cable / child lists
+   and the pin / wire lists below them are the images, in order; the copied child instances
+   instantiate the SAME definitions as their sources and keep the same keys (inner pins of those
+   definitions) with the images of the wires; each copied pin points at the image of its wire, each
+   copied wire lists, in order, the images of the pins its source lists. *)
+Theorem C07_definition_clone_structure : forall ops d,
+  let s := run ops init in
+  d < next s -> kind_of s d = Some KDefinition -> snd (fst (clone_definition s d)) = None ->
+  exists M, DefStruct s d (fst (fst (clone_definition s d))) (snd (clone_definition s d)) M.
+Proof. exact clone_definition_reachable_struct. Qed.
+Print Assumptions C07_definition_clone_structure.
 
 (* faithfulness of Definition._clone, the statement the invariant rests on: the memo maps the copied
    objects of the source injectively to fresh objects; each copied pin points at the image of the wire
